@@ -16,7 +16,8 @@ Seeds == {
        additionalProperties |-> FalseS]),
   Sch([type |-> "object", title |-> "T",
        properties |-> << <<"a", Ty("integer")>>, <<"b", Sch([default |-> JStr("")])>> >>,
-       required |-> <<"a", "b">>, minProperties |-> 0]),
+       required |-> <<"a", "b">>, minProperties |-> 0,
+       patternProperties |-> << <<"^b", Empty>> >>]),
   Sch([itemsT |-> << Ty("integer"), Ty("string") >>, additionalItems |-> FalseS,
        contains |-> Sch([const |-> JInt(1)])]),
   Sch([type |-> "integer",
@@ -53,6 +54,15 @@ Seeds == {
   (* defaults on a composition and on its only member; on a type list; nested *)
   Sch([default |-> JInt(2), allOf |-> << Sch([default |-> JInt(3)]) >>,
        properties |-> << <<"a", Sch([types |-> <<"string", "null">>, default |-> JStr("")])>> >>]),
+  (* the empty tuple (annotated bare List), a class default that is invalid one level down *)
+  Sch([type |-> "object", title |-> "T",
+       properties |-> << <<"a", Sch([type |-> "array", itemsT |-> <<>>, additionalItems |-> FalseS])>>,
+                         <<"b", Ty("string")>> >>,
+       default |-> JObj(<< <<"b", JInt(1)>> >>)]),
+  (* an untyped array first and an array of objects later in one allOf *)
+  Sch([type |-> "array", minItems |-> 1,
+       allOf |-> << Sch([type |-> "array",
+                         items |-> Sch([type |-> "object", properties |-> << <<"a", Ty("string")>> >>])]) >>]),
   (* numeric types meeting in compositions (which member builds the value?) *)
   Sch([type |-> "number", allOf |-> << Ty("integer") >>,
        anyOf |-> << Ty("integer"), Ty("number") >>]),
